@@ -168,7 +168,8 @@ hist == <<touched, flow, trip, preEdge>>      \* history variables: read by inva
 
 (* ------------------------------------------------ geometry ------------------------------------------------ *)
 O == "flat"                                        \* armi core grids are flats-up; the index algebra is the same for both
-HS == INSTANCE HexSymmetry WITH N <- 1, K <- 0, BigK <- {}, MaxLevel <- 0, o <- O, c <- Centre,
+HS == INSTANCE HexSymmetry WITH N <- 1, K <- 0, BigK <- {}, MaxLevel <- 0, AllKz <- FALSE, AllSp <- FALSE,
+                                o <- O, c <- Centre, kz <- 0, sp <- 0,   \* only the constant-level geometry operators are used
                                 act <- [n |-> "Init", k |-> 0, from |-> Centre]
 GeoRot3(k, cc)  == HS!GeoRot(O, 2 * k, cc)         \* the cell whose centre is cc's centre turned by k*120 degrees ccw
 UpperEdge       == <<-1, 2>>
